@@ -1,4 +1,146 @@
-/- Line protocol of C19: placeholder until the model of this property is built. -/
+import BertE.Gen.Prs
+import BertE.Model.Prs
+import BertE.Drv.C18
+/-
+Line protocol of C19 (the pull-request table). Texts travel hex-encoded (`BertE.Drv.C18.hex`, `-` = empty).
+  pull request  `id,robot 0/1,src,dst,state O|D|M|X,title,description`      table: pull requests joined by `;` (`-` = empty)
+  branch list   `name,target;...`
+    `create <enabled 0/1> <table> <parent id> <wbranches>`  -> `<crashed 0/1>|<table>|<child id>:<created 0/1>,...`
+    `decline <table> <name,target;...>`                     -> `<changed 0/1>|<table>`
+    `pr <table> <id>`                                       -> target of a pull-request event
+    `commit <useQueue 0/1> <table> <name,name,...>`         -> target of a commit event
+    `desc <parent id> <branch>`                             -> rendering of the description template
+    `firstnat <text>`                                       -> first number of a text, `-` if none
+    `title <parent id> <dst> <title>`                       -> title of a child
+    `wnames <src> <version,name;...>`                       -> `wbranchesOf` `|` `declinedOf`
+  target = `pr:<id>` | `queues` | `nothing` | `noparent` | `crash:<why>`
+-/
 namespace BertE.Drv.C19
-def handle (_args : List String) : String := "bad-op"
+open BertE.Prs BertE.Names
+open BertE.Drv.C18 (hex unhexS genTbl)
+
+/-- the description template of the current source -/
+def genTemplate : List Seg :=
+  BertE.Gen.Prs.descriptionTemplate.map fun kv =>
+    if kv.1 == "lit" then Seg.lit kv.2.toList
+    else if kv.2 == "pr.id" then Seg.prId
+    else if kv.2 == "branch" then Seg.branch
+    else Seg.unknown
+
+def unS (s : String) : Option String :=
+  if s == "-" then some "" else (unhexS s).map String.ofList
+
+def enS (s : String) : String := if s.isEmpty then "-" else hex s.toList
+
+def parseState : String → Option PrState
+  | "O" => some .opened
+  | "D" => some .declined
+  | "M" => some .merged
+  | "X" => some .other
+  | _ => none
+
+def showState : PrState → String
+  | .opened => "O"
+  | .declined => "D"
+  | .merged => "M"
+  | .other => "X"
+
+def parsePr (s : String) : Option Pr :=
+  match s.splitOn "," with
+  | [id, robot, src, dst, st, title, desc] => do
+    let i ← id.toNat?
+    let s' ← unS src
+    let d ← unS dst
+    let state ← parseState st
+    let t ← unS title
+    let ds ← unS desc
+    pure { id := i, robot := robot == "1", src := s', dst := d, state := state, title := t, desc := ds.toList }
+  | _ => none
+
+def parseTable (s : String) : Option (List Pr) :=
+  if s == "-" then some [] else (s.splitOn ";").mapM parsePr
+
+def showPr (p : Pr) : String :=
+  ",".intercalate [toString p.id, if p.robot then "1" else "0", enS p.src, enS p.dst, showState p.state,
+                   enS p.title, enS (String.ofList p.desc)]
+
+def showTable (prs : List Pr) : String :=
+  if prs.isEmpty then "-" else ";".intercalate (prs.map showPr)
+
+def parsePairs (s : String) : Option (List (String × String)) :=
+  if s == "-" then some [] else
+  (s.splitOn ";").mapM fun kv =>
+    match kv.splitOn "," with
+    | [a, b] => do
+      let x ← unS a
+      let y ← unS b
+      pure (x, y)
+    | _ => none
+
+def showPairs (l : List (String × String)) : String :=
+  if l.isEmpty then "-" else ";".intercalate (l.map fun kv => enS kv.1 ++ "," ++ enS kv.2)
+
+def parseNames (s : String) : Option (List String) :=
+  if s == "-" then some [] else (s.splitOn ",").mapM unS
+
+def showTarget : Target → String
+  | .pr id => s!"pr:{id}"
+  | .queues => "queues"
+  | .nothing => "nothing"
+  | .noParent =>
+    -- `raise messages.ParentPullRequestNotFound(...)`: an AttributeError when bert_e/exceptions.py has no such name
+    if BertE.Gen.Prs.noParentExceptionDefined then "noparent" else "crash:AttributeError"
+  | .crash why => "crash:" ++ why
+
+def b01 (b : Bool) : String := if b then "1" else "0"
+
+def handle (args : List String) : String :=
+  match args with
+  | ["create", en, table, pid, wbs] =>
+    match parseTable table, pid.toNat?, parsePairs wbs with
+    | some prs, some i, some ws =>
+      match getPr prs i with
+      | none => "bad-op parent"
+      | some parent =>
+        let r := createChildren genTemplate prs parent ws (en == "1")
+        b01 r.crashed ++ "|" ++ showTable r.prs ++ "|" ++
+          ",".intercalate (r.children.map fun c => s!"{c.pr.id}:" ++ b01 c.created)
+    | _, _, _ => "bad-op"
+  | ["decline", table, wbs] =>
+    match parseTable table, parsePairs wbs with
+    | some prs, some ws =>
+      let r := declineChildren prs ws
+      b01 r.2 ++ "|" ++ showTable r.1
+    | _, _ => "bad-op"
+  | ["pr", table, pid] =>
+    match parseTable table, pid.toNat? with
+    | some prs, some i =>
+      match getPr prs i with
+      | none => "crash:Exception"
+      | some p => showTarget (redirectPr prs (prs.length + 1) p)
+    | _, _ => "bad-op"
+  | ["commit", uq, table, names] =>
+    match parseTable table, parseNames names with
+    | some prs, some ns => showTarget (handleCommit genTbl ns prs (uq == "1") (prs.length + 1))
+    | _, _ => "bad-op"
+  | ["desc", pid, branch] =>
+    match pid.toNat?, unS branch with
+    | some i, some b => enS (String.ofList (render genTemplate i b.toList))
+    | _, _ => "bad-op"
+  | ["firstnat", text] =>
+    match unS text with
+    | some t => match firstNat t.toList with
+      | some n => toString n
+      | none => "-"
+    | none => "bad-op"
+  | ["title", pid, dst, title] =>
+    match pid.toNat?, unS dst, unS title with
+    | some i, some d, some t => enS (mkTitle i d t)
+    | _, _, _ => "bad-op"
+  | ["wnames", src, dsts] =>
+    match unS src, parsePairs dsts with
+    | some s, some ds => showPairs (wbranchesOf s ds) ++ "|" ++ showPairs (declinedOf s ds)
+    | _, _ => "bad-op"
+  | _ => "bad-op"
+
 end BertE.Drv.C19
